@@ -345,6 +345,17 @@ def machine(tier, sink):
       self._do(['search_results'])
 
     @precondition(lambda self: self.r is not None and self.r.last_search is not None)
+    @rule(field=st.sampled_from(['treatment_geos_range', 'control_geos_range']), kind=st.sampled_from(['exhaustive_search', 'greedy_search']))
+    def make_infeasible_search_retrieve(self, field, kind):
+      # after a search that completed: a size range no design can meet, a search (which finds nothing), a retrieval, and
+      # the range taken away again
+      self._do(['set_param', field, [9, 12]])
+      self._do([kind])
+      if self.r.last_search is not None:
+        self._do(['search_results'])
+      self._do(['set_param', field, None])
+
+    @precondition(lambda self: self.r is not None and self.r.last_search is not None)
     @rule(kind=st.sampled_from(['exhaustive_search', 'greedy_search']))
     def search_again_then_retrieve(self, kind):
       # (if this search raises, the retrieval must still show the last search that completed)
